@@ -148,7 +148,13 @@ def check_on(copy, prop):
 
 
 def main():
-    only = set(sys.argv[1:])
+    args = sys.argv[1:]
+    only_seeds = None  # --seeds id,id,...: run just these seeded changes
+    if "--seeds" in args:
+        k = args.index("--seeds")
+        only_seeds = set(args[k + 1].split(","))
+        args = args[:k] + args[k + 2:]
+    only = set(args)
     results = []
     ok_all = True
     entries = []
@@ -164,6 +170,8 @@ def main():
         entries.append((meta.get("property", sid[:3]), "violation", "seeded change " + sid, ("patch", os.path.join(seeded, sid, "patch.diff"))))
     for prop, expect, what, action in entries:
         if only and prop not in only:
+            continue
+        if only_seeds is not None and not (what.startswith("seeded change ") and what[len("seeded change "):] in only_seeds):
             continue
         d = tempfile.mkdtemp(prefix="kcpself.", dir="/tmp")
         try:
